@@ -114,6 +114,15 @@ class Protocol:
         P["context::PhaseGuard::switch"] = switch_hook
         P["context::PhaseGuard::enter"] = enter_hook
         P["metrics::Metrics::allocation_debt"] = debt
+
+        def debt_predicate(polarity):
+            def h(ip, st, args, info):
+                out = debt(ip, st, args, info)
+                return [(s, k, I(1 if ((v[1] > 0) == polarity) else 0)) for (s, k, v) in out]
+            return h
+        from gcv import rules_debt
+        for fn, pol in rules_debt.debt_predicates(self.prog).items():
+            P[fn] = debt_predicate(pol)
         P["metrics::Metrics::finish_cycle"] = finish_cycle
         return P
 
